@@ -286,6 +286,11 @@ func (in *lgInterp) site(p token.Pos, kind string) {
 	s := lgSite{root: in.root, fn: fn, pos: in.pos(p), kind: kind, held: append([]lgHeld(nil), in.held...), facts: append([][2]*lgNode(nil), in.facts...)}
 	if strings.HasPrefix(kind, "(KCall") {
 		s.pre = append([]lgHeld(nil), in.pre...)
+		for _, h := range in.held {
+			if !h.d {
+				s.undeferred = append(s.undeferred, h)
+			}
+		}
 	}
 	// backend calls and field accesses are listed per root (handler); the rest once per distinct context
 	key := s.pos + "|" + kind + "|" + lgHeldCoq(s.held)
@@ -293,7 +298,7 @@ func (in *lgInterp) site(p token.Pos, kind string) {
 		key += "|" + f[0].coq() + "#" + f[1].coq()
 	}
 	if strings.HasPrefix(kind, "(KCall") || strings.HasPrefix(kind, "(KField") {
-		key = s.root + "|" + key + "|" + lgHeldCoq(s.pre)
+		key = s.root + "|" + key + "|" + lgHeldCoq(s.pre) + "|" + lgHeldCoq(s.undeferred)
 	}
 	if in.seen[key] {
 		return
@@ -833,7 +838,7 @@ func (in *lgInterp) lockOp(p token.Pos, l lgLock, m string) error {
 	switch m {
 	case "Lock", "RLock":
 		in.site(p, fmt.Sprintf("(KAcq %s %s)", l.coq(), lgBool(m == "Lock")))
-		in.held = append(in.held, lgHeld{l, m == "Lock"})
+		in.held = append(in.held, lgHeld{l: l, w: m == "Lock"})
 		dup := false
 		for _, x := range in.pre {
 			if x.l.coq() == l.coq() && x.w == (m == "Lock") {
@@ -841,7 +846,7 @@ func (in *lgInterp) lockOp(p token.Pos, l lgLock, m string) error {
 			}
 		}
 		if !dup {
-			in.pre = append(in.pre[:len(in.pre):len(in.pre)], lgHeld{l, m == "Lock"})
+			in.pre = append(in.pre[:len(in.pre):len(in.pre)], lgHeld{l: l, w: m == "Lock"})
 		}
 		return nil
 	}
@@ -1256,6 +1261,16 @@ func (in *lgInterp) stmt(s ast.Stmt, env *lgEnv, fr *lgFrame) (int, error) {
 				return err
 			})
 			return lgNone, nil
+		}
+		if se, ok := ce.Fun.(*ast.SelectorExpr); ok && (se.Sel.Name == "Unlock" || se.Sel.Name == "RUnlock") {
+			if l, isLock, err := in.lockOf(se.X, env, fr); err == nil && isLock {
+				for i := len(in.held) - 1; i >= 0; i-- {
+					if in.held[i].l.coq() == l.coq() && in.held[i].w == (se.Sel.Name == "Unlock") && !in.held[i].d {
+						in.held[i].d = true
+						break
+					}
+				}
+			}
 		}
 		fr.defers = append(fr.defers, func() error { _, err := in.eval(ce, env, fr); return err })
 		return lgNone, nil
